@@ -67,5 +67,51 @@ CLAIMS = {
               "DESIGN.md §2 C20", engine="enc_roller", note=TRUST_SEQ),
 }
 
+CLAIMS.update({
+    "C07": ch("Held on every execution observed: one sender (single/batch/in-place/try/async forms) and 1-5 receivers that are "
+              "cloned, converted, closed and dropped mid-run; every receiver's sequence must be exactly the sent sequence from "
+              "its creation position (no gap, duplicate, reorder), Disconnected only after the sender is gone and the view "
+              "drained, sender at most capacity ahead of what each live receiver was asked to take, and closed scenarios must "
+              "terminate (stuck oracle) when slow receivers leave.",
+              "runtime monitoring: recorded histories + exact per-receiver prefix checker + backpressure inequality + stuck oracle",
+              "DESIGN.md §2 C07", engine="spmc_stress"),
+    "C11": ch("Held on every execution observed: 2-12 threads on sync and async handles of one cache over few keys, all eight "
+              "policies, janitor/opportunistic/explicit maintenance, chaos on the Hybrid locks; per-key interval rules (no "
+              "foreign value, no stale read, no resurrection, no new-old inversion), compute counters exact, or_insert once.",
+              "runtime monitoring: recorded (key, write id) histories + per-key forgetting-register interval checker",
+              "DESIGN.md §2 C11", engine="cache_hist"),
+    "C12": ch("Held on every program observed: random TTL/TTI/grace configurations with the frozen virtual clock stepped onto, "
+              "1 ns before and 1 ns after every deadline; every read API (sync and async) compared with a reference model: "
+              "nothing served at or after expiry, unexpired entries of an unbounded cache present, stale-while-revalidate rules.",
+              "runtime monitoring: sequential differential against a virtual-time reference model",
+              "DESIGN.md §2 C12", engine="cache_seq", note=TRUST_SEQ),
+    "C13": ch("Held on every execution observed: stress phases (varied costs incl. 0 and > capacity, overwrites, removes, clear, "
+              "loader, all maintenance paths) for every policy x shard count, then a quiescent audit: current_cost equals the "
+              "summed cost of resident entries, and after a maintenance fixpoint resident cost <= capacity.",
+              "runtime monitoring: invariant audit at quiescent points after chaos stress",
+              "DESIGN.md §2 C13", engine="cache_hist"),
+    "C14": ch("Held on every program observed (apart from the listed FIFO finding): >10^5 generated admit/access/remove/evict/clear "
+              "sequences per second over all eight policies against a bookkeeping model (victims tracked, never twice, costs "
+              "exact, enough freed, final drain returns exactly the tracked set; LRU/FIFO exact order).",
+              "runtime monitoring: sequential differential against a tracked-set reference model",
+              "DESIGN.md §2 C14", engine="policy_seq", note=TRUST_SEQ),
+    "C15": ch("Held on every execution observed: waves of 2-24 thread and task callers on missing keys with an instrumented, gated "
+              "loader: one invocation per miss, never overlapping per key, one shared Arc, resident with cost, independence of "
+              "other keys (same and other stripe), refresh racing misses, every caller returns (stuck oracle).",
+              "runtime monitoring: loader invocation log + caller history checker + stuck oracle under chaos",
+              "DESIGN.md §2 C15", engine="loader"),
+    "C16": ch("Held on every execution observed: recording listener with stamps; notifications must name an inserted value, never "
+              "twice, no later read returns it, reason matches cause (virtual clock for Expired), and with a keeping-up "
+              "listener every removal has exactly one notification after quiescence.",
+              "runtime monitoring: listener event log checked against the operation history",
+              "DESIGN.md §2 C16", engine="cache_hist"),
+    "C17": ch("Held on every scenario observed: contents sized around the iterator batch, 1-16 shards, entries expiring before and "
+              "between batches (clock stepped between next() calls): iter / iter_snapshot / stream / to_snapshot yield exactly the "
+              "live entries once; snapshot -> bincode -> restore under each policy keeps mapping, costs, current_cost, no longer "
+              "lifetimes, and stays within capacity after further inserts.",
+              "runtime monitoring: sequential differential against a content/virtual-time model",
+              "DESIGN.md §2 C17", engine="cache_seq", note=TRUST_SEQ),
+})
+
 NOT_APPLICABLE = {p: "monitor under construction in this round (see DESIGN.md build order); not claimed yet"
-                  for p in ["C07", "C08", "C10", "C11", "C12", "C13", "C14", "C15", "C16", "C17"]}
+                  for p in ["C08", "C10"]}
